@@ -71,7 +71,14 @@ type VConn struct {
 	Written []byte
 	// MaxRead limits how many bytes one Read returns (0 = no limit): the harness uses it to model TCP segmentation.
 	MaxRead int
+	// SplitAt lists absolute offsets of the incoming byte stream at which a TCP segment ends: a Read never
+	// crosses the next boundary (the following segment "arrives" only after the previous one was consumed).
+	SplitAt  []int
+	consumed int
 }
+
+// Peer returns the other end.
+func (c *VConn) Peer() *VConn { return c.peer }
 
 type addr struct{}
 
@@ -92,6 +99,15 @@ func (c *VConn) Read(p []byte) (int, error) {
 		if c.MaxRead > 0 && n > c.MaxRead {
 			n = c.MaxRead
 		}
+		for _, b := range c.SplitAt {
+			if b > c.consumed {
+				if n > b-c.consumed {
+					n = b - c.consumed
+				}
+				break
+			}
+		}
+		c.consumed += n
 		copy(p, c.in[:n])
 		c.in = c.in[n:]
 		return n, nil
